@@ -1488,9 +1488,20 @@ func c11KeyWidth(c *rep.Ctx) {
 					return true, "", o
 				}
 			}
+			// a local that is defined exactly once ( k := e ) stands for its definition:
+			// a hash, an enumerated key, or a copy of a parameter (forwarded like the
+			// parameter itself)
+			for ff := f; ff != nil && depth < 4; ff = ff.Parent {
+				if rhs, _ := ff.Graph().SingleDef(o); rhs != nil {
+					if _, isTuple := ff.Info().TypeOf(rhs).(*types.Tuple); !isTuple {
+						return decide(ff, rhs, depth+1)
+					}
+				}
+			}
 			// range variable over Trie.GetKeys()
 			var how string
 			okv := false
+			nAsg, allAsg := 0, true // a local assigned more than once: every assigned value must be a key of the right width
 			for ff := f; ff != nil && !okv; ff = ff.Parent {
 				ast.Inspect(ff.Body, func(n ast.Node) bool {
 					switch s := n.(type) {
@@ -1505,10 +1516,13 @@ func c11KeyWidth(c *rep.Ctx) {
 					case *ast.AssignStmt:
 						for i, l := range s.Lhs {
 							if an.ObjOf(ff.Info(), l) == o && len(s.Lhs) == len(s.Rhs) && depth < 4 {
-								if ok2, h2, fw := decide(ff, s.Rhs[i], depth+1); fw == nil {
-									okv, how = ok2, h2
-								} else {
-									how = "a copy of a parameter"
+								nAsg++
+								if ok2, h2, fw := decide(ff, s.Rhs[i], depth+1); fw != nil {
+									allAsg, how = false, "a copy of a parameter (one of several assignments to the variable)"
+								} else if !ok2 {
+									allAsg, how = false, h2
+								} else if allAsg {
+									how = h2
 								}
 							}
 						}
@@ -1516,7 +1530,7 @@ func c11KeyWidth(c *rep.Ctx) {
 					return true
 				})
 			}
-			return okv, how, nil
+			return okv || (nAsg > 0 && allAsg), how, nil
 		}
 		return false, "expression " + an.ExprString(e), nil
 	}
@@ -1533,6 +1547,12 @@ func c11KeyWidth(c *rep.Ctx) {
 		if o := an.ObjOf(w.fn.Info(), w.arg); o != nil && (!ok || fwd != nil) {
 			g := w.fn.Graph()
 			info := w.fn.Info()
+			// the guard may name the variable handed over or, when that is a once-defined
+			// copy of a parameter of this very function, the parameter
+			isKey := func(e ast.Expr) bool {
+				eo := an.ObjOf(info, e)
+				return eo != nil && (eo == o || (eo == fwd && c10IsParam(w.fn, fwd)))
+			}
 			at := func(e ast.Expr) (string, bool, bool) {
 				be, isBin := ast.Unparen(e).(*ast.BinaryExpr)
 				if !isBin {
@@ -1540,7 +1560,7 @@ func c11KeyWidth(c *rep.Ctx) {
 				}
 				lc, isCall := ast.Unparen(be.X).(*ast.CallExpr)
 				tv, has := info.Types[be.Y]
-				if !isCall || !has || tv.Value == nil || tv.Value.ExactString() != width || !an.IsBuiltin(info, lc, "len") || len(lc.Args) != 1 || an.ObjOf(info, lc.Args[0]) != o {
+				if !isCall || !has || tv.Value == nil || tv.Value.ExactString() != width || !an.IsBuiltin(info, lc, "len") || len(lc.Args) != 1 || !isKey(lc.Args[0]) {
 					return "", false, false
 				}
 				switch be.Op {
